@@ -65,6 +65,9 @@ func (c *Config) Proxy(closing chan bool, cc io.ReadWriter, url *url.URL) error 
 	if err != nil {
 		return fmt.Errorf("connecting h2 to %v: %w", url, err)
 	}
+	// The connection to the server belongs to this session and goes away with it.
+	defer sc.Close()
+
 	if err := forwardPreface(sc, cc); err != nil {
 		return fmt.Errorf("initializing h2 with %v: %w", url, err)
 	}
@@ -100,17 +103,33 @@ func (c *Config) Proxy(closing chan bool, cc io.ReadWriter, url *url.URL) error 
 	}
 	sToC.processors = cToS.processors
 
+	// The session is over as soon as either direction ends (its peer closed, a write failed, a
+	// frame was malformed) or the proxy shuts down. `stop` tells the other direction, which would
+	// otherwise keep waiting for frames from an endpoint that may never send or close.
+	stop := make(chan bool)
+	var stopOnce sync.Once
+	endSession := func() { stopOnce.Do(func() { close(stop) }) }
+	go func() {
+		select {
+		case <-closing:
+			endSession()
+		case <-stop:
+		}
+	}()
+
 	var wg sync.WaitGroup
 	wg.Add(2)
 	go func() { // Forwards frames from client to server.
 		defer wg.Done()
-		if err := cToS.relayFrames(closing); err != nil {
+		defer endSession()
+		if err := cToS.relayFrames(stop); err != nil {
 			log.Errorf("relaying frame from client to %v: %v", url, err)
 		}
 	}()
 	go func() { // Forwards frames from server to client.
 		defer wg.Done()
-		if err := sToC.relayFrames(closing); err != nil {
+		defer endSession()
+		if err := sToC.relayFrames(stop); err != nil {
 			log.Errorf("relaying frame from %v to client: %v", url, err)
 		}
 	}()
